@@ -320,6 +320,37 @@ def main(argv):
         if same is not True:
             ck.oracle_failures.append({'signature': 'api/parsed-back-not-equal', 'input': {'document': out.decode('utf-8'), 'origin': 'api_built'},
                                        'observed': 'written by a validating writer, parsed back: == gives %r (%s)' % (same, err)})
+    # the serialisation follows the definitions: after an edit, and after clear() followed by new definitions (also when the
+    # change counter happens to show the value it had before), generate_xml() shows what the ontology holds now
+    from lxml import etree as _et
+    for i in range(ck.budget(25, 200)):
+        try:
+            o = api_built(rng)
+            first = _et.tostring(o.generate_xml())
+            ot = o.get_object_type('o')
+            ot.set_description('edited %d' % i)
+            second = _et.tostring(o.generate_xml())
+            ck.cov['evaluations'] += 1
+            if ('edited %d' % i).encode() not in second:
+                ck.oracle_failures.append({'signature': 'api/serialisation-does-not-follow-an-edit', 'input': {'origin': 'api_built, then ObjectType.set_description'},
+                                           'observed': 'generate_xml() after the edit does not show the new description'})
+                continue
+            v = o.get_version()
+            o.clear()
+            k = 0
+            while o.get_version() < v and k < 500:
+                (o.create_object_type if k % 2 else o.create_concept)('z%d' % k)
+                k += 1
+            third = _et.fromstring(_et.tostring(o.generate_xml()))
+            got = sorted(e.get('name') for e in third.iter() if e.tag in ('object-type', 'concept'))
+            want = sorted(list(o.get_object_type_names()) + list(o.get_concept_names()))
+            ck.cov['evaluations'] += 1
+            ck.dist('api:clear-and-rebuild:counter-%s' % ('same' if o.get_version() == v else 'differs'))
+            if got != want:
+                ck.oracle_failures.append({'signature': 'api/serialisation-stale-after-clear', 'input': {'origin': 'api_built, generate_xml, clear(), %d new definitions' % k},
+                                           'observed': 'generate_xml() lists %r, the ontology holds %r' % (got[:6], want[:6])})
+        except Exception as e:
+            ck.oracle_failures.append({'signature': 'api/history-raises/' + type(e).__name__, 'input': {'origin': 'api_built history'}, 'observed': repr(e)[:200]})
     terms, metas = [], []
     for tab, attr, written, inp in corr:
         terms.append(coq((Raw('gen_xk_' + tab), def_term(tab, attr), sorted(written.items()), Some(sorted(inp.items())) if inp is not None else None)))
